@@ -84,7 +84,7 @@ def certify(ctx, cases, stats):
             continue
         seen.add(c.text)
         try:
-            L, shape, views = nestview.extract(c.spec, c.text)
+            L, shape, views, acc, lv, outr = nestview.extract(c.spec, c.text)
         except nestview.NotANest as e:
             k = str(e).split(" ")[0]
             stats["tval"]["not_a_plain_nest"][k] = stats["tval"]["not_a_plain_nest"].get(k, 0) + 1
@@ -92,8 +92,9 @@ def certify(ctx, cases, stats):
         cl = clist(map(cstr, L))
         csh = clist(clist(clist(map(cstr, rs)) for rs in tm) for tm in shape)
         cv = clist("(%s, %s)" % (cstr(r), clist(clist("%d%%nat" % i for i in p) for p in per)) for r, per in views)
-        exprs.append("(show_bool (nest_okb %s %s %s))" % (cl, csh, cv))
-        who.append((c, L, shape, views))
+        clv = clist(clist("%d%%nat" % i for i in ps) for ps in lv)
+        exprs.append("(show_bool (nest_full_okb %s %s %s %s %s %s))" % (cl, csh, cv, "true" if acc else "false", clv, clist(map(cstr, outr))))
+        who.append((c, L, shape, {"views": views, "accumulates": acc, "leaf": lv, "out": outr}))
     res = vlib.coq_eval_lines("c01v", ["TV.Model.Show", "TV.Model.Nest"], "", exprs)
     for (c, L, shape, views), r in zip(who, res):
         if r == "T":
@@ -117,9 +118,9 @@ def run(ctx):
         same = [d for d in cases if d.text == c.text]
         if all(d.result["status"] == "RAN" and d.result["out"] == "OK" for d in same):
             ctx.violation({"kind": "validator-rejected"},
-                          "nest_okb rejects the loop nest read off the emitted program (theorem C01_nest_okb_sound_partial no longer covers it); "
+                          "nest_full_okb rejects the loop nest / update statement read off the emitted program (theorem C01_nest_full_okb_sound_partial no longer covers it); "
                           "executions on %d inputs agree with the oracle" % len(same),
-                          dict(c.replay(), nest=c.nest, theorem="C01_nest_okb_sound_partial"), no_input=True)
+                          dict(c.replay(), nest=c.nest, theorem="C01_nest_full_okb_sound_partial"), no_input=True)
     bad = 0
     for c in cases:
         if classify(ctx, c):
